@@ -106,9 +106,16 @@ func VerifHarness_C08_family() {
 	f = append(f, cnt1...)
 	f = append(f, tNL)
 	f = append(f, vDatLine([]token{tText("i")}, []token{tNum(v1), tSym("+"), tText("i")})...)
-	if nested {
+	deep := vParam("nested") == 2 // a third level inside the second
+	if nested || deep {
 		f = append(f, tText("j"), tText("for"), tNum(c2), tNL)
 		f = append(f, vDatLine([]token{tText("i")}, []token{tText("j")})...)
+		if deep {
+			f = append(f, tText("m"), tText("for"), tNum(c3), tNL)
+			f = append(f, vDatLine([]token{tText("j")}, []token{tText("m")})...)
+			f = append(f, tText("rof"), tNL)
+			f = append(f, vDatLine([]token{tText("j")}, []token{tNum(4)})...)
+		}
 		f = append(f, tText("rof"), tNL)
 	}
 	f = append(f, tText("rof"), tNL)
@@ -135,30 +142,43 @@ func VerifHarness_C08_family() {
 		want = append(want, dat(0, 7))
 	}
 	first := len(want)
-	firstLine := true
-	for i := 1; i <= c1; i++ {
-		if hasLabel && firstLine {
+	// the block label goes in front of the next line that is written out
+	// (for an empty block: the line that follows the block)
+	pending := hasLabel
+	label := func() {
+		if pending {
 			u = append(u, tText("blk"))
+			pending = false
 		}
-		firstLine = false
+	}
+	for i := 1; i <= c1; i++ {
+		label()
 		u = append(u, vDatLine([]token{tNum(i)}, []token{tNum(v1), tSym("+"), tNum(i)})...)
 		want = append(want, dat(i, v1+i))
-		if nested {
+		if nested || deep {
 			for j := 1; j <= c2; j++ {
 				u = append(u, vDatLine([]token{tNum(i)}, []token{tNum(j)})...)
 				want = append(want, dat(i, j))
+				if deep {
+					for m := 1; m <= c3; m++ {
+						u = append(u, vDatLine([]token{tNum(j)}, []token{tNum(m)})...)
+						want = append(want, dat(j, m))
+					}
+					u = append(u, vDatLine([]token{tNum(j)}, []token{tNum(4)})...)
+					want = append(want, dat(j, 4))
+				}
 			}
 		}
 	}
 	if second {
 		for k := 1; k <= c3; k++ {
+			label()
 			u = append(u, vDatLine([]token{tNum(k)}, []token{tNum(5)})...)
 			want = append(want, dat(k, 5))
 		}
 	}
 	if hasLabel {
-		// a label in front of an empty block has nothing to refer to
-		vAssume(c1 >= 1)
+		label()
 		u = append(u, tText("jmp"), tText("blk"), tNL)
 		off := (first - len(want) + M) % M
 		want = append(want, Instruction{Op: JMP, OpMode: B, AMode: DIRECT, A: Address(off), BMode: DIRECT, B: 0})
